@@ -148,8 +148,9 @@ def core(n):
     if k == "CXXThisExpr":
         return dict(k="this", t=t, n=None, a=[])
     if k == "InitListExpr":
-        if len(inner) == 1:
-            return core(inner[0])
+        if len(inner) == 1 and ty(inner[0]).replace("const ", "") == t.replace("const ", ""):
+            return core(inner[0])      # T{x} with x a T: that value
+        # anything else (a structure initialised member by member, even when it has a single member) stays a list
         return mk("init")
     if k == "LambdaExpr":
         # a lambda expression is kept as a closed description (no children: what it says is not executed where it stands)
@@ -967,6 +968,11 @@ class Tr:
                     k2 = "mit"
                 if k2 != kd:
                     raise Unsupported("initialiser of kind %s for %s %s" % (k2, kd, v["n"]))
+                if not isinstance(t, str):
+                    # a local structure tracked member by member at translation time (as after  T x;)
+                    lines += b
+                    env[v["n"]] = (t, kd)
+                    continue
                 x = self.fresh("v_" + v["n"] + "_")
                 lines += b + ["let %s := %s in" % (x, t)]
                 env[v["n"]] = (x, kd)
